@@ -104,6 +104,9 @@ type StructureType struct {
 	Fields []StructureField
 
 	AdditionalProperties *GoTypeRender
+	// AdditionalPropertiesToBaseTypeFn prepares the value of an additional
+	// property for encoding the way a declared property of that schema is prepared.
+	AdditionalPropertiesToBaseTypeFn func(to, from string) (string, error)
 }
 
 func NewStructureType(s *specification.Schema, components Componenter, cfg Config) (zero StructureType, _ Imports, _ error) {
@@ -126,6 +129,7 @@ func NewStructureType(s *specification.Schema, components Componenter, cfg Confi
 		imports = append(imports, ims...)
 		render := GoTypeRender(additional)
 		stype.AdditionalProperties = &render
+		stype.AdditionalPropertiesToBaseTypeFn = additional.RenderToBaseType
 	}
 
 	return stype, imports, nil
